@@ -59,9 +59,11 @@ package sqlite
 //@   requires 0 <= *eventCount && *eventCount <= 1000000000000000000
 //@   requires exclusive(eventCount)
 //@   requires exclusive(iterErr)
+//@   loop 1 invariant [C11.batch.last] (batchCount > 0 ==> lastPos == scancolInt(payload(rows), batchCount - 1, 0)) && (batchCount == 0 ==> lastPos == 0)
 //@   loop 1 invariant [C11.batch.loop] batchCount == rowpos(payload(rows)) && 0 <= batchCount && batchCount <= rowsAvail(payload(rows)) &&
 //@        cnt(yieldElem) == batchCount && cnt(yieldErr1) == 0 && cnt(yieldErr3) == 0 && cnt(yieldErr4) == 0 && 0 <= *eventCount && *eventCount <= 1000000000000000000 + batchCount
 //@   ensures [C11.batch.completeOnlyIfNoErr] cont ==> !rowsFailed(payload(rows)) && batchCount == rowsTotal(payload(rows))
+//@   ensures [C11.batch.lastPos] (batchCount > 0 ==> lastPos == scancolInt(payload(rows), batchCount - 1, 0)) && (batchCount == 0 ==> lastPos == 0) && 0 <= batchCount
 //@   ensures [C11.batch.count] cnt(yieldElem) <= rowsAvail(payload(rows)) && (cont ==> cnt(yieldElem) == batchCount)
 //@   ensures [C11.batch.errReported] cont || cnt(yieldErr1) + cnt(yieldErr3) + cnt(yieldErr4) == 1 || (cnt(yieldElem) > 0 && !lastres(yieldElem, Bool))
 //@   ensures [C11.batch.iterErr] rowsFailed(payload(rows)) && (cnt(yieldElem) == 0 || lastres(yieldElem, Bool)) && cnt(yieldErr1) == 0 ==> cnt(yieldErr3) == 1 && lastarg(yieldErr3, 1) == nil && lastarg(yieldErr3, 2, Iface) != nil && !cont
@@ -190,3 +192,21 @@ package sqlite
 //@   ensures [C10.sqlite.load.found] !scanFails(lastres(qRow), 0) ==> err == nil && result0 == dec(scancolInt(lastres(qRow), 0, 0))
 //@   ensures [C10.sqlite.load.err] err != nil ==> result0 == "" && scanFails(lastres(qRow), 0)
 //@   ensures [C10.sqlite.load.none] err == nil && scanFails(lastres(qRow), 0) ==> result0 == ""
+
+// ---------------------------------------------------------------- batched streaming (C11)
+// Cursor discipline: every batch query asks for the rows strictly after the
+// position of the last row delivered so far (fromPosition before the first),
+// and the stream ends without error only on a batch that was read to its real
+// end and came back short.  With the assumed meaning of the SELECT text this is
+// gap-free and repeat-free.
+//@ event batchCall := call (*SQLiteStore).streamBatch
+//@ func (*SQLiteStore).streamBatched
+//@   props C11
+//@   requires s != nil && ctx != nil && s.db != nil && s.cfg != nil && eventCount != nil && iterErr != nil && yield != nil
+//@   requires 0 <= *eventCount && *eventCount <= 1000000
+//@   requires exclusive(eventCount)
+//@   requires exclusive(iterErr)
+//@   loop 1 invariant [C11.batched.cursor] currentPos == ite(cnt(batchCall) == 0, fromPosition, lastresi(batchCall, 1)) && (cnt(batchCall) > 0 ==> lastresi(batchCall, 2, Bool) && lastresi(batchCall, 0) >= batchSize)
+//@   loop 1 invariant [C11.batched.count] 0 <= *eventCount && *eventCount <= 1000000 + cnt(batchCall) * 1000000000000000000
+//@   at call:(*DB).QueryContext assert [C11.batched.query] query == SQL_READ()
+//@   at call:(*SQLiteStore).streamBatch assert [C11.batched.args] payload(rowsArg(rows, 0)) == currentPos && payload(rowsArg(rows, 1)) == batchSize
